@@ -17,6 +17,8 @@ CONSTANTS
   TrackHist = FALSE
   RecoveryAbortsOnLostRace = FALSE
   IndexBeforeRoute = TRUE
+  IncBeforeRetry = TRUE
+  WaitedOn = {}
 CONSTRAINT Bounded
 INVARIANT TypeOK
 INVARIANT NoParallelBody
